@@ -68,11 +68,20 @@ def run_product(ctx):
     return out
 
 
-def apply(ctx, res, rule_prefixes, strict_only=True, lenient_only=False, pid=None):
-    """Copy the product findings whose rule starts with one of the prefixes into the result."""
+def apply(ctx, res, rule_prefixes, strict_only=True, lenient_only=False, pid=None, relative=False):
+    """Copy the product findings whose rule starts with one of the prefixes into the result.
+    relative=True (C12): a lenient valuation is judged against the strict one — a deviation from the reference that the
+    strict parser shows in exactly the same way is not a defect of the *extension* (it belongs to C01/C02/C05/C07);
+    reported are the deviations that exist under the lenient valuation only, or under the strict valuation only."""
     prod = run_product(ctx)
     K = prod["K"]
     states = trans = 0
+    strict_keys = set()
+    if relative:
+        for run in prod["runs"]:
+            o = run["options"]
+            if not (o["accept_truncated_surrogate_pair"] or o["accept_invalid_codepoints"]):
+                strict_keys = set((f["rule"], f["key"]) for f in run["findings"] if any(f["rule"].startswith(p) for p in rule_prefixes))
     for run in prod["runs"]:
         o = run["options"]
         strict = not (o["accept_truncated_surrogate_pair"] or o["accept_invalid_codepoints"])
@@ -84,8 +93,16 @@ def apply(ctx, res, rule_prefixes, strict_only=True, lenient_only=False, pid=Non
         trans += run["transitions"]
         tag = "strict" if strict else "options(truncated=%d,invalid=%d)" % (o["accept_truncated_surrogate_pair"], o["accept_invalid_codepoints"])
         n = 0
+        if relative:
+            here = set((f["rule"], f["key"]) for f in run["findings"])
+            for (r_, k_) in sorted(strict_keys - here):
+                res.violation("C12.rel", "C12.rel/%s/strict-only/%s/%s" % (tag, r_, k_),
+                              "[%s] the strict parser deviates from the reference (%s: %s) but the parser under these options does not: the two modes disagree on more than surrogate escapes" % (tag, r_, k_))
         for f in run["findings"]:
             if any(f["rule"].startswith(p) for p in rule_prefixes):
+                if relative and (f["rule"], f["key"]) in strict_keys:
+                    res.infos.append("[%s] deviation shared with the strict parser, not attributed to C12: %s/%s" % (tag, f["rule"], f["key"]))
+                    continue
                 n += 1
                 key = "%s/%s" % (f["rule"], f["key"]) if strict else "%s/%s/%s" % (f["rule"], tag, f["key"])
                 res.violation(f["rule"] if strict or not lenient_only else "C12." + f["rule"], key, "[%s] %s" % (tag, f["msg"]), f["site"], f["witness"])
